@@ -31,3 +31,42 @@ func VerifC05_VecOverlapPredicate() {
 	verifAssert(verifImplies(panicked, share), "element-disjoint equal-increment vector views must not panic")
 	verifReach("end")
 }
+
+// VerifC05_DenseOverlapPredicate: checkOverlap on two equal-stride windows of
+// one backing array panics iff the windows share an element.
+func VerifC05_DenseOverlapPredicate() {
+	side := verifParam("denseside", 4)
+	capN := side * side
+	back := verifFloats("back", capN)
+	stride := verifChoose("stride", 1, side)
+	r1 := verifInt("r1", 1, side)
+	c1 := verifInt("c1", 1, side)
+	r2 := verifInt("r2", 1, side)
+	c2 := verifInt("c2", 1, side)
+	o1 := verifInt("o1", 0, capN-1)
+	o2 := verifInt("o2", 0, capN-1)
+	verifAssume(verifAnd(c1 <= stride, c2 <= stride))
+	l1 := (r1-1)*stride + c1
+	l2 := (r2-1)*stride + c2
+	verifAssume(verifAnd(o1+l1 <= capN, o2+l2 <= capN))
+	a := blas64.General{Rows: r1, Cols: c1, Stride: stride, Data: back[o1 : o1+l1]}
+	b := blas64.General{Rows: r2, Cols: c2, Stride: stride, Data: back[o2 : o2+l2]}
+	panicked, fault, _ := verifCatch(func() { checkOverlap(a, b) })
+	share := false
+	for i1 := 0; i1 < side; i1++ {
+		for j1 := 0; j1 < side; j1++ {
+			in1 := verifAnd(i1 < r1, j1 < c1)
+			p1 := o1 + i1*stride + j1
+			for i2 := 0; i2 < side; i2++ {
+				for j2 := 0; j2 < side; j2++ {
+					in2 := verifAnd(i2 < r2, j2 < c2)
+					share = verifOr(share, verifAnd(verifAnd(in1, in2), p1 == o2+i2*stride+j2))
+				}
+			}
+		}
+	}
+	verifAssert(!fault, "checkOverlap never faults")
+	verifAssert(verifImplies(share, panicked), "windows sharing an element must panic")
+	verifAssert(verifImplies(panicked, share), "element-disjoint equal-stride windows must not panic")
+	verifReach("end")
+}
